@@ -89,12 +89,9 @@ fn known_construct(a: &Analysis, e: &Edit, out: &Outcome) -> Option<&'static str
 // ------------------------------------------------------------------------------------------------------------
 
 /// PLUG-IN HOOK for additional base programs. Anything returned here is used exactly like a repository seed
-/// (it must parse; otherwise it is counted as discarded). Today: every `*.incn` under
-/// `<verif>/corpus/layout_bases/` (drop files there), and — once it exists — the grammar-directed generator:
-///
-///     // out.extend(vcore::gsyn::programs(seed, n).into_iter().map(|s| ("gsyn".to_string(), s)));
-///
-fn plug_in_bases(_seed: u64, _n: usize) -> Vec<(String, String)> {
+/// (it must parse; otherwise it is counted as discarded): every `*.incn` under `<verif>/corpus/layout_bases/`
+/// (drop files there) and the programs of the grammar-directed generator `vcore::gsyn`.
+fn plug_in_bases(seed: u64, n: usize, ev: &mut Evidence) -> Vec<(String, &'static str, String)> {
     let mut out = Vec::new();
     let dir = vcore::verif_root().join("corpus").join("layout_bases");
     if let Ok(rd) = std::fs::read_dir(&dir) {
@@ -102,8 +99,21 @@ fn plug_in_bases(_seed: u64, _n: usize) -> Vec<(String, String)> {
         ps.sort();
         for p in ps {
             if let Ok(t) = std::fs::read_to_string(&p) {
-                out.push((format!("plug-in:{}", p.file_name().unwrap_or_default().to_string_lossy()), t));
+                out.push((format!("plug-in:{}", p.file_name().unwrap_or_default().to_string_lossy()), "plug-in", t));
             }
+        }
+    }
+    // G-syn: grammar-directed programs over every AST node kind, with its own layout variation (comments, multi-line
+    // brackets, indent units) — more shapes of base text than the small generator below produces
+    let cfg = vcore::gsyn::GsynConfig::default();
+    let strat = vcore::gsyn::program(&cfg);
+    let mut runner = vcore::gen::runner(util::mix(seed ^ 0x6773_796e));
+    for (i, t) in vcore::gen::batch(&strat, &mut runner, n).iter().enumerate() {
+        let p = t.current();
+        if p.parsed {
+            out.push((format!("gsyn#{i}"), "gsyn", p.source));
+        } else {
+            ev.discard("gsyn-noise-does-not-parse");
         }
     }
     out
@@ -144,11 +154,11 @@ fn collect_bases(args: &Args, ev: &mut Evidence, n_generated: usize) -> Vec<Base
             None => ev.discard("seed-does-not-parse"),
         }
     }
-    for (name, text) in plug_in_bases(args.seed, n_generated) {
+    for (name, class, text) in plug_in_bases(args.seed, n_generated * 3 / 5, ev) {
         if !seen.insert(util::hash_str(&text)) {
             continue;
         }
-        match make_base(name, "plug-in", text) {
+        match make_base(name, class, text) {
             Some(b) => bases.push(b),
             None => ev.discard("plug-in-does-not-parse"),
         }
@@ -306,6 +316,22 @@ fn main() {
         std::process::exit(out.finish(&ev));
     }
 
+    // ---- judge one structured fuzz input (artifact of fz_layout): `c10 --fuzz-input <file>`
+    if let Some(path) = args.flag("fuzz-input") {
+        let bytes = std::fs::read(path).unwrap_or_default();
+        match layout::decode_fuzz_input(&bytes).and_then(|(base, script)| make_base("fuzz-input".into(), "fuzz", base).map(|b| (b, script))) {
+            None => out.inconclusive("fuzz input does not decode to a base program that parses"),
+            Some((b, script)) => {
+                ev.case(Some(b.hash));
+                ev.sample(json!({"base": util::truncate(&b.text, 400), "script": format!("{script:?}")}));
+                if let Some((f, edited, desc)) = run_script(&b, &script, &out, None) {
+                    report(&mut out, &mut ev, &b.text, &edited, &desc, &f);
+                }
+            }
+        }
+        std::process::exit(out.finish(&ev));
+    }
+
     // ---- known findings: replay canonical inputs
     for e in out.known.open.clone() {
         let text = std::fs::read_to_string(&e.replay).unwrap_or_default();
@@ -321,6 +347,25 @@ fn main() {
             _ => false,
         };
         out.known_replayed(&e.key, still);
+    }
+
+    // ---- canonical inputs of findings that are no longer open: regression inputs, judged like any other case
+    let kdir = vcore::verif_root().join("known").join(PROP);
+    let open_replays: Vec<std::path::PathBuf> = out.known.open.iter().map(|e| e.replay.clone()).collect();
+    if let Ok(rd) = std::fs::read_dir(&kdir) {
+        let mut ps: Vec<_> = rd.flatten().map(|e| e.path()).filter(|p| p.extension().is_some_and(|e| e == "json") && !open_replays.contains(p)).collect();
+        ps.sort();
+        for p in ps {
+            let v: serde_json::Value = serde_json::from_str(&std::fs::read_to_string(&p).unwrap_or_default()).unwrap_or(json!({}));
+            let (Some(base), Some(edited)) = (v["base"].as_str(), v["edited"].as_str()) else { continue };
+            let Some(b) = make_base(p.display().to_string(), "regression", base.to_string()) else { continue };
+            let kind = v["signature"].as_str().and_then(|s| s.split(':').next()).unwrap_or("regression").to_string();
+            ev.case(Some(util::hash_str(edited)));
+            ev.class("regression:former-finding");
+            if let Err(f) = judge(b.fp, edited, &kind) {
+                report(&mut out, &mut ev, base, edited, &format!("regression input {}", p.display()), &f);
+            }
+        }
     }
 
     // ---- bases
